@@ -43,7 +43,7 @@ def show(r):
 
 def count_kinds(ctx, ss, seen):
     for s in ss:
-        k = {"i": "include", "I": "import", "F": "from-import", "S": "scope-" + (s[1] if s[0] == "S" else ""),
+        k = {"i": "include", "I": "import", "F": "from-import", "S": "scope-" + (s[1] if s[0] == "S" else ""), "X": "extends",
              "s": "set", "m": "macro", "p": "probe", "a": "probe-attr", "o": "text"}[s[0]]
         seen.add(k)
         if s[0] == "i":
@@ -58,6 +58,8 @@ def count_kinds(ctx, ss, seen):
             seen.add("import-" + {None: "default", True: "with", False: "without"}[s[3]])
         if s[0] == "S":
             count_kinds(ctx, s[4], seen)
+        if s[0] == "i" and s[2] in ("var", "tuple"):
+            seen.add("include-list-" + s[2])
 
 
 def judge(ctx, case, ml, real, nontriv, key):
@@ -90,23 +92,28 @@ def run_sets(ctx, jinja2, sets):
         lines.append(G.model_line(ts, "r"))
         metas.append((ts, srcs, "r", None))
         for n in ts["templates"]:
-            if n == ts["main"] and ts.get("objects"):
+            if n == ts["main"] and (ts.get("objects") or ts.get("lists")):
                 continue        # Template objects travel in the render data, which .module does not get
             lines.append(G.model_line(ts, "m", main=n))
             metas.append((ts, srcs, "m", n))
     out = ctx.driver("imp", lines)
-    for (ts, srcs, mode, n), line, ml in zip(metas, lines, out):
+    for idx, ((ts, srcs, mode, n), line, ml) in enumerate(zip(metas, lines, out)):
+        # configuration axes the property does not exclude (the model is configuration independent), sampled
+        kind = G.ENV_KINDS[(idx // 5) % len(G.ENV_KINDS)] if idx % 5 == 3 else "plain"
+        if mode == "m" and "async" in kind:
+            kind = "autoescape"        # Template.module is not available in async mode
         seen = set()
         for t in ts["templates"].values():
             count_kinds(ctx, t["body"], seen)
         if mode == "r":
             for kd in seen:
                 ctx.count(kd)
-            real = G.real_render(jinja2, ts, env=G.make_env(jinja2, ts, srcs))
+            real = G.real_render(jinja2, ts, env=G.make_env(jinja2, ts, srcs, kind=kind), history=(idx % 3 == 1))
+            ctx.count("env:" + kind)
         else:
-            real = G.real_module(jinja2, ts, n, env=G.make_env(jinja2, ts, srcs))
+            real = G.real_module(jinja2, ts, n, env=G.make_env(jinja2, ts, srcs, kind=kind))
         case = {"sources": srcs, "main": ts["main"] if mode == "r" else n, "mode": mode, "data": ts["data"],
-                "env_globals": ts["env_globals"], "objects": ts.get("objects", []),
+                "env_globals": ts["env_globals"], "objects": ts.get("objects", []), "lists": ts.get("lists", {}),
                 "template_globals": {k: t["globals"] for k, t in ts["templates"].items()}, "model_line": line}
         nontriv = ({"include", "import", "from-import"} & seen) and real.startswith("O ") and len(real) > 8
         judge(ctx, case, ml, real, bool(nontriv), line)
@@ -146,7 +153,7 @@ def run(ctx):
     # Lib/PyImp, equals the reference results that Lib/PyImp proves equal to Model/Imp's functions
     translator_tie(ctx, "imp_translate", "Gen_imp", 2)
     g = G.IGen(ctx.rng)
-    n = ctx.size(800, 12000)
+    n = ctx.size(420, 8000)
     B = 2000
     for i in range(0, n, B):
         run_sets(ctx, jinja2, [g.tset() for _ in range(min(B, n - i))])
@@ -167,7 +174,8 @@ def replay(ctx, data):
         print("replay: this file names a broken theorem/correspondence, not an input:", data.get("broken"))
         return run(ctx)
     ts = {"templates": {n: {"globals": case["template_globals"].get(n, {}), "body": []} for n in case["sources"]},
-          "main": case["main"], "data": case["data"], "env_globals": case["env_globals"], "objects": case["objects"]}
+          "main": case["main"], "data": case["data"], "env_globals": case["env_globals"], "objects": case["objects"],
+          "lists": {k: [tuple(t) for t in v] for k, v in case.get("lists", {}).items()}}
     env = G.make_env(jinja2, ts, case["sources"])
     real = G.real_render(jinja2, ts, env=env) if case["mode"] == "r" else G.real_module(jinja2, ts, case["main"], env=env)
     p = parse(ctx.driver("imp", [case["model_line"]])[0])
